@@ -359,6 +359,38 @@ func programs() []prog {
 				return glife.Str(glife.Members()), nil
 			}
 	})
+	// the last operator leaves an autokick group (the remaining members are
+	// kicked by a goroutine that outlives the lock) while another operator joins
+	add("last-op-leaves-vs-op-joins/autokick", func() ([]func(), []string, func() (string, *core.Violation)) {
+		w := newWorld(descAutokick)
+		w.join(w.a, "alice", "pa")
+		w.join(w.c, "bob", "pb")
+		return []func(){
+				func() { w.leave(w.a) },
+				func() { w.join(w.b, "alice", "pa") },
+			}, []string{"leave(last op)", "join(another op)"}, func() (string, *core.Violation) {
+				kicked := false
+				for _, e := range w.b.Events {
+					if e.Kind == "kick" {
+						kicked = true
+					}
+				}
+				// the joiner was an operator all along: whichever way the two
+				// calls are ordered, it is not among "the members left without an operator"
+				if w.errs["b"] == nil && kicked && w.a.G == nil {
+					ops := 0
+					for _, id := range glife.Members() {
+						if id == "b" {
+							ops++
+						}
+					}
+					if ops > 0 {
+						return "", &core.Violation{Signature: "C13/autokick/operator-kicked", What: "an operator that joined while the last operator was leaving was kicked for 'no operators in this group' although it is an operator itself"}
+					}
+				}
+				return glife.Str(glife.Members()) + fmt.Sprint(kicked), nil
+			}
+	})
 	add("shutdown-with-whip", func() ([]func(), []string, func() (string, *core.Violation)) {
 		w := newWorld(descPlain)
 		g, _ := group.Add("g", nil)
